@@ -1,2 +1,3 @@
 import HvSink.Model.Chan
 import HvSink.Model.Merge
+import HvSink.Model.Sink
